@@ -242,6 +242,20 @@ func genTree(r *Rng) []PNode {
 			PNode{Path: "p/ext/dir/sub/deeper", Kind: "l", Data: "../../../ext/dir2"},
 			PNode{Path: "p/ext/dir2", Kind: "d", Perm: 0755, Mtime: 1300000011e9}, PNode{Path: "p/ext/dir2/f2", Kind: "f", Perm: 0644, Mtime: 1300000012e9, Data: "f2"})
 	}
+	if r.Chance(15) {
+		// link cycles inside the outside directory (F26, repaired: a symlink-cycle error, no crash):
+		// to itself, to an ancestor that contains it, by absolute path
+		cyc := []PNode{
+			{Path: "p/ext/dir/self", Kind: "l", Data: "."},
+			{Path: "p/ext/dir/sub/top", Kind: "l", Data: "../.."},
+			{Path: "p/ext/dir/selfabs", Kind: "l", Data: "@ARENA@/p/ext/dir"},
+			{Path: "p/ext/dir/sub/again", Kind: "l", Data: "loop/sub"},
+		}
+		nodes = append(nodes, cyc[r.Intn(len(cyc))])
+		if nodes[len(nodes)-1].Path == "p/ext/dir/sub/again" {
+			nodes = append(nodes, PNode{Path: "p/ext/dir/sub/loop", Kind: "l", Data: ".."})
+		}
+	}
 	var dirs = []string{"p/src"}
 	used := map[string]bool{}
 	n := 1 + r.Intn(9)
@@ -294,7 +308,39 @@ func symlinkedComponentCase(other string, deref bool) *PCase {
 	}}
 }
 
-var packCorpus = []*PCase{symlinkedComponentCase("BB", true), symlinkedComponentCase("B", true), symlinkedComponentCase("BB", false)}
+// a rule that names a path below a dereferenced link (F43, repaired: rules are matched against archive paths)
+func derefRuleCase(rule string) *PCase {
+	return &PCase{Src: "@ARENA@/p/src", Deref: true, Ignore: true, Nodes: []PNode{
+		{Path: "p", Kind: "d", Perm: 0755, Mtime: 1300000000e9},
+		{Path: "p/src", Kind: "d", Perm: 0755, Mtime: 1300000001e9},
+		{Path: "p/ext", Kind: "d", Perm: 0755, Mtime: 1300000004e9},
+		{Path: "p/ext/dir", Kind: "d", Perm: 0750, Mtime: 1300000006e9},
+		{Path: "p/ext/dir/inner", Kind: "f", Perm: 0644, Mtime: 1300000007e9, Data: "inner-secret"},
+		{Path: "p/ext/dir/other", Kind: "f", Perm: 0644, Mtime: 1300000007e9, Data: "other"},
+		{Path: "p/ext/dir/sub", Kind: "d", Perm: 0755, Mtime: 1300000008e9},
+		{Path: "p/ext/dir/sub/deep", Kind: "f", Perm: 0644, Mtime: 1300000009e9, Data: "deep"},
+		{Path: "p/src/l", Kind: "l", Data: "../ext/dir"},
+		{Path: "p/src/main.tf", Kind: "f", Perm: 0644, Mtime: 1300000010e9, Data: "m"},
+		{Path: "p/src/.terraformignore", Kind: "f", Perm: 0644, Mtime: 1400000000e9, Data: rule},
+	}}
+}
+
+// a dereferenced directory that leads back to itself
+func derefCycleCase(linkPath, target string) *PCase {
+	return &PCase{Src: "@ARENA@/p/src", Deref: true, Nodes: []PNode{
+		{Path: "p", Kind: "d", Perm: 0755, Mtime: 1300000000e9},
+		{Path: "p/src", Kind: "d", Perm: 0755, Mtime: 1300000001e9},
+		{Path: "p/ext", Kind: "d", Perm: 0755, Mtime: 1300000004e9},
+		{Path: "p/ext/f", Kind: "f", Perm: 0644, Mtime: 1300000007e9, Data: "f"},
+		{Path: "p/ext/d", Kind: "d", Perm: 0755, Mtime: 1300000008e9},
+		{Path: linkPath, Kind: "l", Data: target},
+		{Path: "p/src/l", Kind: "l", Data: "../ext"},
+	}}
+}
+
+var packCorpus = []*PCase{symlinkedComponentCase("BB", true), symlinkedComponentCase("B", true), symlinkedComponentCase("BB", false),
+	derefRuleCase("l/inner\n"), derefRuleCase("inner\n"), derefRuleCase("l/sub/\n"), derefRuleCase("/l/*\n!/l/other\n"), derefRuleCase("l/\n!l/sub/deep\n"),
+	derefCycleCase("p/ext/self", "."), derefCycleCase("p/ext/d/up", ".."), derefCycleCase("p/ext/d/abs", "@ARENA@/p/ext"), derefCycleCase("p/ext/d/fine", "../f")}
 
 func genPCase(r *Rng) *PCase {
 	c := &PCase{Nodes: genTree(r), Src: "@ARENA@/p/src", Deref: r.Chance(40), Ignore: r.Chance(50)}
@@ -599,6 +645,22 @@ func judgePack(rep *Report, c *PCase, arena, src string, allow []string, out pac
 		}
 		return nil
 	})
+	// ---- C03 (secrecy, also with dereferencing): no entry whose own archive path is excluded ----
+	if c.Ignore && c.Deref && len(allow) == 0 {
+		rulefile := ""
+		for _, n := range c.Nodes {
+			if n.Path == "p/src/.terraformignore" && n.Kind == "f" {
+				rulefile = n.Data
+			}
+		}
+		orules := oParse(rulefile)
+		for _, e := range out.entries {
+			name := strings.TrimSuffix(e.Name, "/")
+			if !strings.HasPrefix(name, "../") && oExcluded(orules, name) {
+				fail("C03", fmt.Sprintf("%s is excluded by the rules but is in the slug (dereferencing on)", name), "")
+			}
+		}
+	}
 	// ---- C03: with ignore processing, a file ships iff its own path is not excluded ----
 	if !c.Deref && len(allow) == 0 {
 		rulefile := ""
